@@ -38,6 +38,10 @@ struct ShortReader<'a> {
     pos: usize,
     sizes: Vec<usize>,
     k: usize,
+    /// a reader that itself hashes (e.g. verifies per-frame checksums) with another Hasher through
+    /// update_reader on the same thread: the adapters must be re-entrant
+    nested: bool,
+    nested_bad: bool,
 }
 
 #[cfg(feature = "full")]
@@ -50,6 +54,14 @@ impl<'a> std::io::Read for ShortReader<'a> {
         }
         let want = self.sizes[self.k % self.sizes.len()].max(1);
         let n = want.min(buf.len()).min(self.data.len() - self.pos);
+        if self.nested {
+            let frame = &self.data[self.pos..self.pos + n.min(200)];
+            let mut inner = blake3::Hasher::new();
+            let ok = inner.update_reader(frame).is_ok() && *inner.finalize().as_bytes() == specmodel::hash(&specmodel::Mode::Hash, frame);
+            if !ok {
+                self.nested_bad = true;
+            }
+        }
         buf[..n].copy_from_slice(&self.data[self.pos..self.pos + n]);
         self.pos += n;
         Ok(n)
@@ -197,9 +209,14 @@ fn run_inner(rng: &mut Rng, cfg: &Cfg, tag: u64, rep: &mut Report) -> Outcome {
                     11 => {
                         name = "update_reader";
                         let sizes: Vec<usize> = (0..1 + rng.usize_below(4)).map(|_| *rng.pick(&[1usize, 7, 63, 64, 65, 1023, 1024, 4096, 65535, 65536, 1 << 20])).collect();
+                        let nested = rng.chance(1, 6);
                         guarded(|| {
-                            let rd = ShortReader { data, pos: 0, sizes, k: 0 };
-                            h.update_reader(rd).map(|_| ()).map_err(|e| e.to_string())
+                            let mut rd = ShortReader { data, pos: 0, sizes, k: 0, nested, nested_bad: false };
+                            let r = h.update_reader(&mut rd).map(|_| ()).map_err(|e| e.to_string());
+                            if rd.nested_bad {
+                                return Err("a hasher used through update_reader inside the reader's own read() gave a wrong result".to_string());
+                            }
+                            r
                         })
                     }
                     #[cfg(feature = "full")]
